@@ -357,6 +357,18 @@ pub fn build(family: &str, tier: Tier) -> Vec<Cfg> {
                     out.push(c);
                 }
             }
+            // a tiny output buffer on the second connection only: a retransmission is cut half-written, with others queued behind it,
+            // and the session is resumed once more
+            for policy in [OfflineQueuePolicy::PreserveAll, OfflineQueuePolicy::PreserveNothing] {
+                if !thorough && policy == OfflineQueuePolicy::PreserveNothing { continue; }
+                let mut c = Cfg::base("ordering", &format!("caps[4096, 5, 4096]-{:?}", policy));
+                c.caps = vec![4096, 5, 4096]; c.offline = policy;
+                c.submits = vec![spec("pub1", publish("t", 1)), spec("pub2", publish("t", 2))];
+                c.max_submits = 3; c.max_conns = 3; c.budget = 2; c.max_depth = 90;
+                c.allow.close = true;
+                c.session_answers = vec![true];
+                out.push(c);
+            }
             // flow-control stall of the retransmission queue: Receive Maximum shrinks on the resumed connection
             for rms in [vec![None, Some(1u16)], vec![Some(3), Some(1)]] {
                 let mut c = Cfg::base("ordering", &format!("rm-by-conn{:?}", rms));
@@ -573,5 +585,7 @@ pub fn build(family: &str, tier: Tier) -> Vec<Cfg> {
         }
         _ => {}
     }
+    // MQTT 3.1.1 has no session expiry interval: its persistent sessions run with the option unset (negotiated value 0)
+    for c in out.iter_mut() { if c.mqtt311 { c.session_expiry = None; } }
     out
 }
